@@ -15,6 +15,15 @@ def astype(array, dtype):
         return array.astype(dtype)
 
 
+def workable_format(mat):
+    # Workaround for scipy bugs: sums and products of DIA matrices fail
+    # if diagonals are missing or stored with less than full length
+    if mat.format == "dia":
+        return mat.tocsr()
+
+    return mat
+
+
 class EvalError(ValueError):
     def __init__(self, msg, x):
         self.x = x
@@ -77,11 +86,11 @@ class Evaluator(abc.ABC):
 
     def cons_jac(self, x: np.ndarray) -> sp.sparse.spmatrix:
         self.num_evals[Component.ConsJac] += 1
-        return self._eval_cons_jac(x)
+        return workable_format(self._eval_cons_jac(x))
 
     def lag_hess(self, x: np.ndarray, lag: np.ndarray) -> sp.sparse.spmatrix:
         self.num_evals[Component.LagHess] += 1
-        return self._eval_lag_hess(x, lag)
+        return workable_format(self._eval_lag_hess(x, lag))
 
     @abc.abstractmethod
     def _eval_obj(self, x: np.ndarray) -> float:
